@@ -40,13 +40,16 @@ class C17(C16):
                    ("a/ln_sib/secret.csv", "ln_sib/secret.csv"), ("../outside/secret.csv", "../../outside/secret.csv"),
                    ("ln_out", "../ln_out"), ("a/ln_sib", "ln_sib"), ("ABS_OUTSIDE/s2.csv", "ABS_OUTSIDE/s2.csv"),
                    ("a/../../root_x/secret.csv", "./../../root_x/secret.csv"),
-                   ("../ROOT/secret.csv", "../../ROOT/secret.csv"), ("../ROOT", "../../ROOT")]
+                   ("../ROOT/secret.csv", "../../ROOT/secret.csv"), ("../ROOT", "../../ROOT"),
+                   # a root-anchored specification whose remainder is itself an absolute path
+                   ("/ABS_OUTSIDE/s2.csv", "/ABS_OUTSIDE/s2.csv"), ("file:/ABS_OUTSIDE/s2.csv", "FILE:\\ABS_OUTSIDE/s2.csv"),
+                   ("\\ABS_OUTSIDE/s2.csv", "/ABS_OUTSIDE"), ("..", "../.."), ("a/../..", "../../"),]
         for from_root, from_a in escapes:
             for place in ("root-item", "root-file", "nested-file"):
                 files = [{"rel": "f1.csv", "blocks": [t(1)]}, {"rel": "a/f2.csv", "blocks": [t(2)]}]
                 roots = ["/f1.csv"]
                 if place == "root-item":
-                    roots = ["/" + from_root if not from_root.startswith("ABS") else from_root]
+                    roots = [from_root if from_root.startswith(("ABS", "/", "file:", "\\")) else "/" + from_root]
                 elif place == "root-file":
                     files[0]["blocks"].append({"k": "include", "lines": [from_root]})
                 else:
